@@ -132,6 +132,11 @@ func (c *fn) expr(e ast.Expr) cx {
 	case *ast.CallExpr:
 		if fi, _, _ := c.calleeInfoSafe(x); fi != nil && fi.inoutCount() > 0 {
 			c.fail(x, "a function that mutates a map argument is called inside an expression")
+		} else if fi != nil && fi.effect {
+			if !c.effect {
+				panic(needEffect{})
+			}
+			c.fail(x, "%s acts on the outside world and is called inside an expression (only `f(..)`, `x, y := f(..)`, `x = f(..)`, `return f(..)` and `if x := f(..); ..` are supported)", fi.label)
 		}
 		return c.call(x)
 	case *ast.BinaryExpr:
@@ -651,6 +656,12 @@ func (c *fn) equality(x *ast.BinaryExpr) cx {
 				return neg(c.lift([]cx{c.expr(pair[0])}, func(v []string) string { return "(err_same " + v[0] + " " + name + ")" }))
 			}
 		}
+		for _, pair := range [][2]ast.Expr{{a, b}, {b, a}} {
+			if _, ok := c.localErrIdentity(pair[1]); ok && c.kindOf(pair[0]) == kError {
+				tgt := c.exprAs(pair[1], types.Universe.Lookup("error").Type())
+				return neg(c.lift([]cx{c.expr(pair[0]), tgt}, func(v []string) string { return "(err_same " + v[0] + " " + v[1] + ")" }))
+			}
+		}
 		c.fail(x, "comparison of two errors neither of which is a package-level sentinel (var ErrX = errors.New(..))")
 	case kPtr:
 		// one side must be a package-level pointer variable
@@ -876,4 +887,3 @@ func (c *fn) assertion(x *ast.TypeAssertExpr) (string, string) {
 	c.fail(x, "type assertion to %s is not supported (only string, integer and boolean kinds)", types.TypeString(t, nil))
 	return "", ""
 }
-
